@@ -47,13 +47,13 @@ static const char *run_name(int run)
 }
 
 static jwk_set_t *ring[NCFG];          /* shared, read-only: [0] private/symmetric, [1] public */
-static char *FIXED_GOOD[NCFG], *FIXED_BAD[NCFG];
+static char *FIXED_GOOD[NCFG], *FIXED_BAD[NCFG], *FIXED_SHORT[NCFG];
 static unsigned char K32[32];
 
 typedef struct {
 	int cfg, tid;
 	char *tok;
-	int r_own, r_bad, r_good, flag_after_bad;
+	int r_own, r_bad, r_good, flag_after_bad, r_short;
 	int gen_failed;
 } tobs_t;
 
@@ -88,6 +88,8 @@ static void body(void *arg)
 	else
 		jwt_checker_claim_set(k, JWT_CLAIM_AUD, "aud-shared");
 	o->r_own = o->tok ? jwt_checker_verify(k, o->tok) : -1;
+	/* a token whose signature has the wrong length takes the early exits of the verification routines (odd threads only) */
+	o->r_short = o->tid % 2 ? jwt_checker_verify(k, FIXED_SHORT[o->cfg]) : 1;
 	o->r_bad = jwt_checker_verify(k, FIXED_BAD[o->cfg]);
 	o->flag_after_bad = jwt_checker_error(k);
 	o->r_good = jwt_checker_verify(k, FIXED_GOOD[o->cfg]);
@@ -149,6 +151,7 @@ static void setup(void)
 		FIXED_GOOD[i] = tok_attach(input, sig, sl);
 		sig[sl / 2] ^= 0x20;
 		FIXED_BAD[i] = tok_attach(input, sig, sl);
+		FIXED_SHORT[i] = tok_attach(input, sig, sl / 2);
 		free(sig);
 		free(input);
 	}
@@ -213,6 +216,15 @@ static void check_exec(int cfg, int nthr, const exec_t *x)
 		vf_violation("harness|prefix-divergence", "%s: a replayed prefix choice was out of range (schedule %s)", run_name(cfg), sched_str(x));
 	if (x->rc == -2)
 		vf_violation("harness|too-many-points", "%s: more than %d scheduling points", run_name(cfg), MAXPTS);
+	if (x->rc == -3) {
+		/* a thread is blocked where no schedule of independent objects can block: on a lock or an object of the library that another
+		 * thread's call destroyed or never released.  Its threads are still alive: this worker cannot go on. */
+		char key[96];
+		snprintf(key, sizeof key, "schedule|%s|no-progress", run_name(cfg));
+		vf_violation(key, "no thread reached its next scheduling point within %d s (deadlock or wait on a destroyed object); schedule (point:choice) %s", sched_horizon_s, sched_str(x));
+		fflush(NULL);
+		_exit(0);
+	}
 	int switches = 0;
 	for (int i = 1; i < x->n; i++)
 		if (x->pts[i].thread != x->pts[i - 1].thread)
@@ -224,7 +236,8 @@ static void check_exec(int cfg, int nthr, const exec_t *x)
 		int tc = thread_cfg(cfg, t);
 		const tobs_t *o = &x->obs[t], *s = &SEQ[tc][t];
 		h = vf_hash_mix(h, vf_hash_mix(o->r_own * 9 + o->r_bad * 3 + o->r_good, CFG[tc].deterministic ? vf_hash_str(o->tok) : 0));
-		if (o->gen_failed != s->gen_failed || o->r_own != s->r_own || o->r_bad != s->r_bad || o->r_good != s->r_good || o->flag_after_bad != s->flag_after_bad) {
+		if (o->gen_failed != s->gen_failed || o->r_own != s->r_own || o->r_bad != s->r_bad || o->r_good != s->r_good || o->flag_after_bad != s->flag_after_bad ||
+		    (o->r_short != 0) != (s->r_short != 0)) {
 			char key[96];
 			snprintf(key, sizeof key, "schedule|%s|verdict-differs", run_name(cfg));
 			vf_violation(key, "thread %d: generate-failed=%d verify(own)=%d verify(bad)=%d verify(good)=%d, sequentially %d %d %d %d; schedule (point:choice) %s", t,
@@ -293,7 +306,7 @@ static void *free_body(void *p)
 		o.tid = a->tid % SCHED_MAXT;
 		body(&o);
 		const tobs_t *s = &SEQ[a->cfg][o.tid];
-		if (o.r_own != s->r_own || o.r_bad != s->r_bad || o.r_good != s->r_good || (CFG[a->cfg].deterministic && o.tok && s->tok && strcmp(o.tok, s->tok)))
+		if (o.r_own != s->r_own || o.r_bad != s->r_bad || o.r_good != s->r_good || (o.r_short != 0) != (s->r_short != 0) || (CFG[a->cfg].deterministic && o.tok && s->tok && strcmp(o.tok, s->tok)))
 			a->mismatches++;
 		free(o.tok);
 	}
@@ -326,7 +339,9 @@ static void enumerate_free_running(int provider)
 {
 	lj_select_provider(provider);
 	setup();
+	alarm(45);   /* one thread alone cannot wait for anybody: a stall here is a stall of the library */
 	sequential_reference();
+	alarm(0);
 	for (int c = 0; c < NCFG + NMIX; c++) {
 		if (!vf_case("free-running: 8 threads x %d iterations of the %s body under ThreadSanitizer [%s]", vf_thorough ? 400 : 100, run_name(c), lj_provider_name(provider)))
 			continue;
@@ -399,7 +414,9 @@ static void enumerate(void)
 	vf_alloc_install();
 	lj_select_provider(provider);
 	setup();
+	alarm(45);   /* one thread alone cannot wait for anybody: a stall here is a stall of the library */
 	sequential_reference();
+	alarm(0);
 	vf_alloc_hook = alloc_point;
 	vf_time_hook = time_point;
 	rc_alloc_hook = time_point;
